@@ -363,6 +363,25 @@ def run(spec, mon):
         mon.check("reporter.format_from_userdata", reps[0].output_format == fmt, lambda: RB.witness(case, got=reps[0].output_format, want=fmt))
         check_run(lab, mon, case, obs, reps, fmt)
         RB.check_identity(mon, obs, case, prefix="census")
+        if mode == 0 and not grow and not case["program"].get("user_skip") and i % 5 != 2:
+            # independent of the statuses behave's model shows: what the summary counts is what the REFERENCE MODEL says every scenario
+            # and every step (each scenario has step results of its own -- background copies included) ended as
+            from ..ref import runmodel as _rm
+            pred_ = _rm.predict(case["program"], case["cfg"])
+            if not pred_.aborted and all(len(v) == 1 for v in pred_.scen_status.values()) and \
+                    all(len(x) == 1 for v in pred_.step_status.values() for x in v):
+                want_sc, want_st = {}, {}
+                for v in pred_.scen_status.values():
+                    k_ = next(iter(v))
+                    want_sc[k_] = want_sc.get(k_, 0) + 1
+                for v in pred_.step_status.values():
+                    for x in v:
+                        k_ = next(iter(x))
+                        want_st[k_] = want_st.get(k_, 0) + 1
+                got_sc = {k_: v_ for k_, v_ in reps[0].scenario_summary.items() if k_ != "all" and v_}
+                got_st = {k_: v_ for k_, v_ in reps[0].step_summary.items() if k_ != "all" and v_}
+                mon.check("reporter.counts_what_the_reference_model_says", got_sc == want_sc and got_st == want_st,
+                          lambda: RB.witness(case, scenarios=got_sc, model_scenarios=want_sc, steps=got_st, model_steps=want_st))
         if i == 0:
             mon.sample({"features": RB.case_texts(case), "args": args, "census": census(lab, obs.features)[0]})
     for i in range(2 if tier == "quick" else 25):
